@@ -35,21 +35,20 @@ SPEC = {
                 'prefix, NextState). Inputs of the model: reader answers, decoded attributed observations, query, landing schedule. libocr itself (leader election, '
                 'attestation, transmission protocol) and the real off-ramp contract are not modelled',
     'level_text': 'Proof: 35 closed Coq theorems. 15 property theorems. Safety: the transmit-time re-check forces start = then-current cursor for every report and '
-                  'destination state and blocks on a reader failure (C04_transmit_starts_at_cursor, _reader_failure, C04_no_stale_send); the off-ramp keeps every chain '
-                  'contiguous under ANY sequence of landing reports (C04_committed_contiguous); honest observations carry the true root and with <= f_k Byzantine oracles '
-                  'per chain every agreed root is the true root (C04_honest_root_true, C04_true_root_unique, C04_agreed_root_true: composition with C01 and C02); report '
-                  'roots are agreed roots (C04_report_roots_are_agreed). Liveness is proved IN FULL over histories (CommitLive): C04_honest_quorum_consensus (2f+1 '
-                  'same-view reporters, f of the chain the value is read from, make the C01 consensus succeed with that value), C04_liveness (from EVERY previous '
-                  'outcome, over every history whose selecting / building rounds contain such a quorum with messages pending and readable, some outcome within (max+2)+2 '
-                  'non-retry rounds is a generated report with a root of chain k over [off, min(on, off+n-1)]), _fixed_cursor, _true_root, _nonvacuous (4 oracles, one '
-                  'Byzantine, bound reached). Unrepaired code refuted: C04_liveness_unfixed_refuted (F26, repaired in /repo: an all-honest legal configuration never '
-                  "selected an interval). Judge soundness (20 C04_judge_*): for each of the 4 sinks the executable property accepts the model's output and implies the "
-                  'Prop-level clause; the liveness theorems are restated over any chain of judged implementation outcomes (C04_judge_liveness*). Correspondence, every '
-                  'run: 4, 7 or 10 real long-lived commit.Plugin instances over one world run 18..36-round histories (observation -> validation -> outcome -> reports -> '
-                  'accept -> transmit -> land; colluding Byzantine oracles, f_dest != f_k, reader storms, lost / delayed / duplicated transmissions); every transmit '
-                  "verdict, the final off-ramp content and every round's (previous outcome, query, observations) -> outcome (plugin wiring, sink C04_round) are judged; "
-                  'ValidateMerkleRootsState at function level. Translation tie: the 23 theorems of C01_gen.v, C02_gen.v, C03_gen.v are re-checked. Outside: RMN-retry '
-                  'rounds are unbounded (a silent RMN stalls building); attestation, transmission and landing are libocr / chain.',
+                  'destination state and blocks on a reader failure (C04_transmit_starts_at_cursor, C04_no_stale_send); the off-ramp keeps every chain contiguous under '
+                  'ANY sequence of landing reports (C04_committed_contiguous); with <= f_k Byzantine oracles per chain every agreed root is the true root '
+                  '(C04_honest_root_true, C04_agreed_root_true: composition with C01 and C02); report roots are agreed roots. Liveness is proved IN FULL over histories '
+                  '(CommitLive): C04_honest_quorum_consensus (2f+1 same-view reporters, f of the chain the value is read from, make the C01 consensus succeed with that '
+                  'value); C04_liveness (from EVERY previous outcome, over every history whose selecting / building rounds contain such a quorum with messages pending '
+                  'and readable, some outcome within (max+2)+2 non-retry rounds is a generated report with a root of chain k over [off, min(on, off+n-1)]), '
+                  '_fixed_cursor, _true_root, _nonvacuous (one Byzantine oracle, bound reached). Unrepaired code refuted: C04_liveness_unfixed_refuted (F26, repaired in '
+                  '/repo: an all-honest legal configuration never selected an interval). Judge soundness (20 C04_judge_*): for each of the 4 sinks the executable '
+                  "property accepts the model's output and implies the Prop-level clause; the liveness theorems are restated over any chain of judged implementation "
+                  'outcomes. Correspondence, every run: 4, 7 or 10 real long-lived commit.Plugin instances over one world run 18..36-round histories (colluding Byzantine '
+                  'oracles, f_dest != f_k, reader storms, lost / delayed / duplicated transmissions); every transmit verdict, the final off-ramp content and every '
+                  "round's outcome (plugin wiring, sink C04_round) are judged; ValidateMerkleRootsState at function level. Translation tie: the 23 theorems of C01_gen.v, "
+                  'C02_gen.v, C03_gen.v are re-checked. Outside: RMN-retry rounds are unbounded (a silent RMN stalls building); attestation, transmission and landing are '
+                  'libocr / chain.',
     'level_note': 'Trusted: Coq kernel, hand-written model and theorem statements, differential harness, leaf translator. Specific: the off-ramp contract is a MODEL '
                   '(root accepted iff min = stored next and min <= max, cursor := max+1, a failing root reverts the report); libocr gives every honest oracle the same '
                   'validated observation list and hands only attested reports to ShouldAccept / ShouldTransmit; honest readers return only true finalised messages of the '
